@@ -88,7 +88,7 @@ impl Model for BuilderModel {
 fn main() {
     let args: Vec<String> = std::env::args().collect();
     if args.len() < 4 {
-        eprintln!("usage: ppp-xcheck <C09|C10> <core|main|boundary> <depth>");
+        eprintln!("usage: ppp-xcheck <C09|C10> <core|main|boundary|limit> <depth>");
         std::process::exit(2);
     }
     engine::install_panic_hook();
@@ -96,6 +96,7 @@ fn main() {
     let (ctors, ops): (Vec<u8>, Vec<u8>) = match args[2].as_str() {
         "core" => (vec![0, 4], mc::CORE_OPS.to_vec()),
         "boundary" => (vec![0, 4, 6], mc::BOUNDARY_OPS.to_vec()),
+        "limit" => (vec![0, 4, 6], mc::LIMIT_OPS.to_vec()),
         _ => ((0..mc::ctors().len() as u8).collect(), mc::main_ops()),
     };
     let depth: usize = args[3].parse().unwrap_or(3);
